@@ -77,7 +77,7 @@ func verifAppend(tag string) {
 		return
 	}
 	vapi.Reach("appended")
-	vapi.Assert(tag+".gate", !badPrices && !badChallenge && second == 0)
+	vapi.Assert(tag+".gate", !badPrices && !badChallenge && second == 0 && !w.unrevisable)
 	vapi.Assert(tag+".model", sameRoots(after.roots, append(append([]types.Hash256(nil), w.roots...), wantAppended...)))
 	checkRevision(tag, before.fc, after.fc, wantUsage.RenterCost())
 	// the charge is the price-table cost of what was actually appended
@@ -123,7 +123,7 @@ func verifRoots(tag string) {
 		return
 	}
 	vapi.Reach("listed")
-	vapi.Assert(tag+".gate", !badPrices && !badSig && inRange)
+	vapi.Assert(tag+".gate", !badPrices && !badSig && inRange && !w.unrevisable)
 	vapi.Assert(tag+".roots-unchanged", sameRoots(before.roots, after.roots))
 	checkRevision(tag, before.fc, after.fc, usage.RenterCost())
 	var resp proto4.RPCSectorRootsResponse
@@ -187,7 +187,7 @@ func verifFund(tag string) {
 		return
 	}
 	vapi.Reach("funded")
-	vapi.Assert(tag+".gate", !badSig)
+	vapi.Assert(tag+".gate", !badSig && !w.unrevisable)
 	checkRevision(tag, before.fc, after.fc, total)
 	// credits equal the transfer: every account grew by what was deposited into it
 	var credited types.Currency
@@ -292,7 +292,7 @@ func verifReplenish(tag string, pools bool) {
 		}
 		if err == nil {
 			// nothing to do: every balance already at or above the target
-			vapi.Assert(tag+".nothing-needed", want.IsZero() && !badChallenge)
+			vapi.Assert(tag+".nothing-needed", want.IsZero() && !badChallenge && !w.unrevisable)
 			vapi.Reach("nothing-needed")
 		} else {
 			vapi.Reach("failed")
@@ -300,7 +300,7 @@ func verifReplenish(tag string, pools bool) {
 		return
 	}
 	vapi.Reach("replenished")
-	vapi.Assert(tag+".gate", !badChallenge && second == 0)
+	vapi.Assert(tag+".gate", !badChallenge && second == 0 && !w.unrevisable)
 	checkRevision(tag, before.fc, after.fc, want)
 	for i := range accounts {
 		vapi.Assert(tag+".topped-up-to-target", bal(accounts[i]) == pre[i].Add(wantDep[i]))
